@@ -105,7 +105,8 @@ func firstLine(s string) string {
 	return s
 }
 
-var errLine = regexp.MustCompile(`(?m)^(?:# )?([^\s:]+?)(?:/[^/\s:]+\.go:\d+:\d+: .*|$)`)
+// CaseKeyPattern: case directories are named cNNN_MM
+var caseKey = regexp.MustCompile(`c\d{3}_\d{2}`)
 
 // Build runs `go build ./...` (and optionally vet) in the module root and returns, per
 // top-level case directory (first path element below root), the error lines that mention it.
@@ -137,17 +138,16 @@ func Build(root string, vet bool, timeout time.Duration) (ok bool, perCase map[s
 	}
 	if !ok {
 		for _, line := range strings.Split(raw, "\n") {
-			l := strings.TrimPrefix(strings.TrimSpace(line), "# ")
-			l = strings.TrimPrefix(l, Module+"/")
-			l = strings.TrimPrefix(l, "./")
-			if l == "" {
+			t := strings.TrimSpace(line)
+			if t == "" {
 				continue
 			}
-			if i := strings.IndexByte(l, '/'); i > 0 {
-				key := l[:i]
-				if strings.Contains(line, ".go:") || strings.HasPrefix(strings.TrimSpace(line), "# ") {
-					perCase[key] = append(perCase[key], strings.TrimSpace(line))
+			// attribute a line to the case directory it mentions (first path element below the module root)
+			if m := caseKey.FindString(t); m != "" {
+				if strings.HasPrefix(t, "# ") && !strings.Contains(t, ".go") {
+					continue // package header line
 				}
+				perCase[m] = append(perCase[m], t)
 			}
 		}
 	}
